@@ -19,7 +19,7 @@ func init() {
 		Rule: "reference-multiplexed streams (2..4 PIDs, PES bounded/unbounded salted with start codes, PAT/PMT, SI) under packet-level fault plans: every single-packet duplication (directly after the original " +
 			"and after intervening packets of other PIDs) and every single-packet deletion of every stream; random multi-fault plans (deletion bursts 1..15, duplicates, transport_error_indicator, " +
 			"discontinuity_indicator, adaptation-only insertions); all fault words of length 7 over {none,dup,delete,TEI,AF-only,DI} on a 2-PID micro stream; the output is compared with the fault-free " +
-			"output using the model's knowledge of which units each fault touched; plus units of 257..3500 packets behind and around gaps and duplicates (stage giant), duplicates with re-stamped clocks that must be invisible — everything delivered compared, first packets included — and 21 kinds of look-alikes (same counter and payload, another header / adaptation field flag or value) as a receiver sees them after 15 lost packets (stage near-dup); distinct = hash of the faulted stream; non-trivial = at least one fault applied",
+			"output using the model's knowledge of which units each fault touched; plus units of 257..3500 packets behind and around gaps and duplicates (stage giant), duplicates with re-stamped clocks that must be invisible — everything delivered compared, first packets included — and 21 kinds of look-alikes (same counter and payload, another header / adaptation field flag or value) as a receiver sees them after 15 lost packets (stage near-dup), sessions that restart in the middle of a unit under discontinuity_indicator (alone or next to PCR / OPCR / random access / splice / private data / extension) with 1..4 packets lost in front such that the counters line up (stage flagged); distinct = hash of the faulted stream; non-trivial = at least one fault applied",
 		Assumptions: []string{"loss plans satisfy the property's precondition: < 16 packets lost in a row on a PID and a later payload packet of that PID survives (plans that do not are skipped and counted)",
 			"a packet with discontinuity_indicator is treated as preceded by a gap", "errors returned by NextData are not units", "on PSI PIDs a duplicate may cause a repeated delivery equal to its neighbour"},
 		Shards: 32,
@@ -33,6 +33,7 @@ func init() {
 			need(m, &out, "gap_burst_15", 5)
 			need(m, &out, "giant_unit_plans", 200)
 			need(m, &out, "near_duplicate_cases", 250)
+			need(m, &out, "flagged_discontinuity_cases", 250)
 			need(m, &out, "dup_position_first", 100)
 			need(m, &out, "dup_position_middle", 100)
 			need(m, &out, "dup_position_last", 100)
@@ -415,6 +416,82 @@ func nearDuplicateCase(c *mon.Ctx, idx int64, r *rand.Rand) {
 		return
 	}
 	// not a duplicate: the unit it sits in may be missing, everything delivered is a unit of the stream, the others are all there
+	judgeSurvivors(c, "near-duplicate", "near-dup", idx, v.name, s, ds, []int64{1, 3, 4}, data)
+}
+
+// flaggedDiscontinuityCase: a new session starts in the middle of a unit (a splice, an encoder restart, two recordings concatenated):
+// its first packet carries discontinuity_indicator - alone or next to a PCR, an OPCR, a random access indicator, a splice countdown,
+// private data, an extension - and a continuity counter that has nothing to do with the one before, which the indicator makes legal.
+// The stream is what a receiver sees after the last j packets of the interrupted unit were lost, with j such that the counters LINE UP:
+// the counter shows no gap, the indicator is all that tells. The survivors must not be joined to what follows.
+func flaggedDiscontinuityCase(c *mon.Ctx, idx int64, r *rand.Rand) {
+	stuff := func(b []byte, n int) []byte {
+		for len(b) < n {
+			b = append(b, 0xff)
+		}
+		return b
+	}
+	clock := func(base uint64, ext uint16) []byte {
+		v := base<<15 | 0x3f<<9 | uint64(ext)
+		return []byte{byte(v >> 40), byte(v >> 32), byte(v >> 24), byte(v >> 16), byte(v >> 8), byte(v)}
+	}
+	base := r.Uint64N(1 << 33)
+	afs := []struct {
+		name string
+		af   []byte
+	}{
+		{"indicator-alone", []byte{0x80}},
+		{"with-pcr", append([]byte{0x90}, clock(base, 5)...)},
+		{"with-pcr-and-opcr", append(append([]byte{0x98}, clock(base, 5)...), clock(base/3, 1)...)},
+		{"with-random-access", []byte{0xc0}},
+		{"with-pcr-and-random-access", append([]byte{0xd0}, clock(base, 299)...)},
+		{"with-splice-countdown", []byte{0x84, 0x00}},
+		{"with-private-data", []byte{0x82, 0x02, 0xaa, 0xbb}},
+		{"with-extension", []byte{0x81, 0x01, 0x1f}},
+	}
+	v := afs[int(idx)%len(afs)]
+	startsUnit := idx/int64(len(afs))%2 == 1 // the new session starts with the start of a unit / in the middle of one
+	lost := 1 + int(idx/int64(2*len(afs)))%4
+	s := newLongStream()
+	s.cc[0x100] = uint8(r.IntN(16))
+	s.pes(0x100, 0xe0, 1, longData(0x100, 1, 60+r.IntN(400)), false)
+	// the interrupted unit: lost+2..lost+5 packets of which the last `lost` never arrive
+	na := lost + 2 + r.IntN(4)
+	da := longData(0x100, 2, 184*na-14-r.IntN(100))
+	pa := append(pesHeaderPTS(0xe0, 2, len(da), false), da...)
+	for k := 0; k < na-lost; k++ {
+		s.packet(0x100, k == 0, pa[184*k:184*k+184])
+	}
+	// the next counter is the one the first packet of the new session happens to carry
+	af := stuff(append([]byte{}, v.af...), 16)
+	if startsUnit {
+		d := longData(0x100, 3, 167-14+184+r.IntN(150))
+		p := append(pesHeaderPTS(0xe0, 3, len(d), false), d...)
+		s.afPacket(0x100, true, false, 0, af, p[:167], false)
+		s.unit0(0x100, p[167:])
+		s.want[0x100] = append(s.want[0x100], longUnit{pes: true, pts: 3, data: d, packets: 3})
+	} else {
+		foreign := bytes.Repeat([]byte{0xd0}, 167+184+r.IntN(100))
+		s.afPacket(0x100, false, false, 0, af, foreign[:167], false)
+		s.unit0(0x100, foreign[167:])
+		s.pes(0x100, 0xe0, 3, longData(0x100, 3, 100+r.IntN(500)), false)
+	}
+	s.pes(0x100, 0xe0, 4, longData(0x100, 4, 300), false)
+	s.pes(0x100, 0xe0, 5, longData(0x100, 5, 20), false)
+	ds, _, pn := drainData(s.b)
+	c.Count("flagged_discontinuity_cases")
+	c.Seen("flagged_discontinuity_variants", fmt.Sprintf("%s/starts-unit=%v/lost=%d", v.name, startsUnit, lost))
+	c.Case(mon.HashStr("flagged", fmt.Sprint(idx)), true)
+	data := map[string]any{"variant": v.name, "new_session_starts_a_unit": startsUnit, "packets_lost": lost, "stream": mon.Hex(s.b, 3000)}
+	if pn != "" {
+		c.Violate("C06/flagged-discontinuity/panic:"+v.name, "flagged", idx, pn, data)
+		return
+	}
+	judgeSurvivors(c, "flagged-discontinuity", "flagged", idx, v.name, s, ds, []int64{1, 3, 4, 5}, data)
+}
+
+// judgeSurvivors: everything delivered on PID 0x100 is a unit of the stream (never something else), and the units named are all there.
+func judgeSurvivors(c *mon.Ctx, cls, stage string, idx int64, name string, s *longStream, ds []*astits.DemuxerData, must []int64, data map[string]any) {
 	byPTS := map[int64]longUnit{}
 	for _, u := range s.want[0x100] {
 		byPTS[u.pts] = u
@@ -422,19 +499,23 @@ func nearDuplicateCase(c *mon.Ctx, idx int64, r *rand.Rand) {
 	seen := map[int64]bool{}
 	for _, d := range ds {
 		if d.PES == nil || d.PES.Header.OptionalHeader == nil || d.PES.Header.OptionalHeader.PTS == nil {
-			c.Violate("C06/near-duplicate/foreign-or-spliced-unit:"+v.name, "near-dup", idx, "a datum that is no PES with a PTS", data)
+			c.Violate("C06/"+cls+"/foreign-or-spliced-unit:"+name, stage, idx, "a datum that is no PES with a PTS", data)
 			return
 		}
 		u, ok := byPTS[d.PES.Header.OptionalHeader.PTS.Base]
 		if !ok || !bytes.Equal(u.data, d.PES.Data) {
-			c.Violate("C06/near-duplicate/foreign-or-spliced-unit:"+v.name, "near-dup", idx, fmt.Sprintf("delivered unit with PTS %d and %d bytes equals no unit of the stream", d.PES.Header.OptionalHeader.PTS.Base, len(d.PES.Data)), data)
+			c.Violate("C06/"+cls+"/foreign-or-spliced-unit:"+name, stage, idx, fmt.Sprintf("delivered unit with PTS %d and %d bytes equals no unit of the stream", d.PES.Header.OptionalHeader.PTS.Base, len(d.PES.Data)), data)
+			return
+		}
+		if seen[u.pts] {
+			c.Violate("C06/"+cls+"/out-of-order-or-duplicated:"+name, stage, idx, fmt.Sprintf("the unit with PTS %d is delivered twice", u.pts), data)
 			return
 		}
 		seen[u.pts] = true
 	}
-	for _, pts := range []int64{1, 3, 4} {
+	for _, pts := range must {
 		if !seen[pts] {
-			c.Violate("C06/near-duplicate/unit-missing-without-cause:"+v.name, "near-dup", idx, fmt.Sprintf("the unit with PTS %d is not the one the packet sits in, yet it is not delivered", pts), data)
+			c.Violate("C06/"+cls+"/unit-missing-without-cause:"+name, stage, idx, fmt.Sprintf("the unit with PTS %d lost no packet and does not precede the gap, yet it is not delivered", pts), data)
 			return
 		}
 	}
@@ -725,6 +806,12 @@ func runC06(c *mon.Ctx) {
 	for i := int64(0); i < c.Pick(300, 6000); i++ {
 		if c.Mine("near-dup", i) {
 			nearDuplicateCase(c, i, c.Rng("near-dup", i))
+		}
+	}
+	// a session that restarts in the middle of a unit, flagged by discontinuity_indicator, where the counters happen to line up
+	for i := int64(0); i < c.Pick(256, 4096); i++ {
+		if c.Mine("flagged", i) {
+			flaggedDiscontinuityCase(c, i, c.Rng("flagged", i))
 		}
 	}
 	// giant units: units of 257, 1023 .. 3500 packets behind a gap, with a gap or a duplicate inside, and before one
